@@ -237,8 +237,8 @@ class C14(Check):
     principal_faults = ('sigint',)
     expected_probes = ('sigint-while-t.join', 'sigint-while-running', 'second-interrupt', 'interrupt-with-workers-executing',
                        'sigint-inside-proxy-call')
-    rule = ('serial backend: one run per line-event index of the calling thread inside labtech during run_tasks (exhaustive per '
-            'workload) plus sampled interrupt pairs; process backends: seeded (specification, schedule, interrupt instants); '
+    rule = ('serial backend: one run per interrupt check point (function entry, loop back-edge, return from a C call, call of a '
+            'non-labtech Python function) of the calling thread inside labtech during run_tasks (exhaustive per workload) plus sampled interrupt pairs; process backends: seeded (specification, schedule, interrupt instants); '
             'distinct = distinct (specification digest, schedule digest, interrupt instants); non-trivial = an interrupt was delivered')
 
     def components(self):
@@ -268,7 +268,7 @@ class C14(Check):
                 k1 = rng.randrange(n)
                 k2 = rng.randrange(60) if rng.random() < 0.7 else rng.randrange(400)
                 cases.append({'workload': name, 'interrupts': [{'mode': 'line', 'k': k1}, {'mode': 'line', 'k': k2}]})
-            info.append({'workload': name, 'line_events_in_run_tasks': n, 'sampled_pairs': pairs})
+            info.append({'workload': name, 'check_points_in_run_tasks': n, 'sampled_pairs': pairs})
         # process backends: for fixed workloads and fixed schedules, every main-thread line boundary too
         combos = [('fork', 'chain')] if tier == 'quick' else [(b, w) for b in ('fork', 'spawn') for w in WORKLOADS]
         for backend, name in combos:
@@ -320,11 +320,13 @@ class C14(Check):
                             second = {'mode': 'rpc', 'k': rng.randrange(12)} if rng.random() < 0.5 else {'mode': 'line', 'k': rng.randrange(200)}
                             cases.append({'workload': name, 'backend': backend, 'sched': sched, 'monitor': monitor,
                                           'interrupts': [{'mode': 'rpc', 'k': k1}, second]})
-                    info.append({'workload': name, 'backend': backend, 'schedule': sched, 'line_events_in_run_tasks': n,
+                    info.append({'workload': name, 'backend': backend, 'schedule': sched, 'check_points_in_run_tasks': n,
                                  'proxy_calls_in_run_tasks': n_rpcs})
         return cases, {'exhaustive': True, 'per_workload': info,
-                       'what': 'single interrupt at every line-event index of the calling thread inside labtech during run_tasks: serial backend '
-                               '(two workloads) and simulated fork / spawn backends (two workloads, fixed schedules)'}
+                       'what': 'single interrupt at every check point (the instants at which CPython 3.12 can raise KeyboardInterrupt: function entry, '
+                               'loop back-edge, return from a C call, call of a non-labtech Python function) of the calling thread inside '
+                               'labtech during run_tasks: serial backend (two workloads) and simulated fork / spawn backends (fixed '
+                               'schedules); plus every manager proxy call (request sent, reply unread)'}
 
     def run_case(self, case, workdir, tier):
         s2 = case.get('backend') in ('fork', 'spawn')
